@@ -103,7 +103,9 @@ theorem wrapScope {C : Code} {ctx : List BI} {src base σ1 : VM} {n e1 : Nat} {I
   | thr v =>
     obtain ⟨τ, h2, ⟨xs, h3⟩, h4⟩ := hsim
     exact ⟨τ, hc0.trans h2, ⟨xs ++ ys, by rw [h3, hs]; simp⟩, hr0.trans h4⟩
-  | fatal => exact hsim
+  | fatal =>
+    obtain ⟨τ, h1, h2, h3⟩ := hsim
+    exact ⟨τ, hr0.trans h1, by rw [h2, hc0.log, List.append_assoc], h3⟩
 
 /-- leaving a `with` statement -/
 theorem wrapWith {C : Code} {ctx : List BI} {σ σ1 : VM} {e1 : Nat} {I : List Nat} {rf : Bool}
@@ -146,7 +148,9 @@ theorem wrapWith {C : Code} {ctx : List BI} {σ σ1 : VM} {e1 : Nat} {I : List N
   | thr v =>
     obtain ⟨τ, h2, ⟨xs, h3⟩, h4⟩ := hsim
     exact ⟨τ, hc0.trans h2, ⟨xs, by rw [h3, hs]⟩, hr0.trans h4⟩
-  | fatal => exact hsim
+  | fatal =>
+    obtain ⟨τ, h1, h2, h3⟩ := hsim
+    exact ⟨τ, hr0.trans h1, by rw [h2, hc0.log, List.append_assoc], h3⟩
 
 theorem SimK.end_irrel {C : Code} {ctx : List BI} {σ : VM} {e e' : Nat} {I : List Nat} {rf : Bool}
     {l : List Ev} {k : K} (hk : k ≠ K.normal) (h : SimK C ctx σ e I rf l k) : SimK C ctx σ e' I rf l k := by
@@ -289,7 +293,9 @@ theorem SimG.prependG {C : Code} {ctx : List BI} {src mid base midB : VM} {e : N
   | thr v =>
     obtain ⟨τ, h2, ⟨xs, h3⟩, h4⟩ := h
     exact ⟨τ, hc.trans h2, ⟨xs, by rw [h3, hs]⟩, hr.trans h4⟩
-  | fatal => exact h
+  | fatal =>
+    obtain ⟨τ, h1, h2, h3⟩ := h
+    exact ⟨τ, hr.trans h1, by rw [h2, hc.log, List.append_assoc], h3⟩
 
 theorem SimG.end_irrel {C : Code} {ctx : List BI} {src base : VM} {e e' : Nat} {I : List Nat} {rf : Bool}
     {l : List Ev} {k : K} (hk : k ≠ K.normal) (h : SimG C ctx src base e I rf l k) : SimG C ctx src base e' I rf l k := by
@@ -402,23 +408,24 @@ theorem finallyStage {C : Code} {ctx : List BI} {src base : VM} {g : TryFrame} {
     {pcF lf env cur i : Nat} {I If : List Nat} {rf : Bool} {l lfl : List Ev} {k kf : K}
     (hg1 : g.finallyPos = some (pcF + 1)) (hgx : g.exc = none) (hgr : g.finallyRet = none)
     (hgsp : g.sp = base.stack.length)
-    (hthr : ∀ v, k = K.thr v → g.catchPos = none) (hret : ∀ v, k = K.ret v → rf = false)
+    (hthr : ∀ v, k = K.thr v → g.catchPos = none) (hret : ∀ v, k = K.ret v → rf = false) (hnf : k ≠ K.fatal)
     (hb : base.tries = g :: rest) (hbi : base.iters = []) (hbc : base.cnt cur = some env) (hcurI : cur ∉ I)
     (hsubI : ∀ x, x ∈ If → x ∈ I)
     (hE : C[pcF]? = some Instr.enterFinally) (hM : C[pcF + 1]? = some (Instr.emit (Ev.finE i)))
     (hL : C[pcF + 2 + lf]? = some Instr.leaveFinally)
+    {rff : Bool} (hrff : rf = true → rff = true)
     (hF : ∀ τ : VM, τ.pc = pcF + 2 → τ.halted = none → τ.iters = [] → τ.cnt cur = some env →
-        SimK C (BI.try_ :: ctx) τ (pcF + 2 + lf) If true lfl kf)
+        SimK C (BI.try_ :: ctx) τ (pcF + 2 + lf) If rff lfl kf)
     (h : SimG C (BI.try_ :: ctx) src base pcF I rf l k) :
     SimG C ctx src { base with tries := rest } (pcF + 2 + lf + 1) I rf (l ++ Ev.finE i :: lfl)
       (if kf = K.normal then k else kf) := by
   have runFin : ∀ τF : VM, τF.pc = pcF + 1 → τF.halted = none → τF.iters = [] → τF.cnt cur = some env →
-      SimK C (BI.try_ :: ctx) τF (pcF + 2 + lf) I true (Ev.finE i :: lfl) kf := by
+      SimK C (BI.try_ :: ctx) τF (pcF + 2 + lf) I rf (Ev.finE i :: lfl) kf := by
     intro τF hp hh hi hc
-    have c1 : Common τF (VM.step τF (.emit (.finE i))) [Ev.finE i] I true :=
+    have c1 : Common τF (VM.step τF (.emit (.finE i))) [Ev.finE i] I rf :=
       ⟨by simp, by simp, by simpa using hi, by simpa using hh, fun _ _ => by simp, fun _ => by simp⟩
     have A := hF (VM.step τF (.emit (.finE i))) (by simp [hp]) c1.halted c1.iters (by simpa using hc)
-    have := SimK.prepend (Reach.one hh (by rw [hp]; exact hM)) c1 (by simp) (SimK.mono A hsubI (fun h => h))
+    have := SimK.prepend (Reach.one hh (by rw [hp]; exact hM)) c1 (by simp) (SimK.mono A hsubI hrff)
     simpa using this
   have abruptTail : kf ≠ K.normal → ∀ (τF : VM) (gd : TryFrame), gd.finallyPos = none → gd.catchPos = none →
       Reach C src τF → Common { base with tries := gd :: rest } τF l I rf → τF.stack = base.stack → τF.pc = pcF + 1 →
@@ -426,8 +433,7 @@ theorem finallyStage {C : Code} {ctx : List BI} {src base : VM} {g : TryFrame} {
     intro hkf τF gd hd1 hd2 hrF hcF hsF hpF
     have hcnt : τF.cnt cur = some env := by rw [hcF.cnt cur hcurI]; exact hbc
     have R := runFin τF hpF hcF.halted hcF.iters hcnt
-    have R' : SimG C (BI.try_ :: ctx) τF τF (pcF + 2 + lf) I rf (Ev.finE i :: lfl) kf :=
-      SimK.mono R (fun _ h => h) (fun _ => rfl)
+    have R' : SimG C (BI.try_ :: ctx) τF τF (pcF + 2 + lf) I rf (Ev.finE i :: lfl) kf := R
     have P := peelDead (e' := pcF + 2 + lf + 1) hd1 (fun _ _ => hd2) hcF.tries hkf R'
     exact SimG.prependG (midB := { τF with tries := rest }) (base := { base with tries := rest }) hrF
       ⟨hcF.log, rfl, hcF.iters, hcF.halted, hcF.cnt, hcF.res⟩ hsF P
@@ -452,7 +458,7 @@ theorem finallyStage {C : Code} {ctx : List BI} {src base : VM} {g : TryFrame} {
       have hstep2 : VM.step τ' .leaveFinally = { τ' with tries := rest, pc := τ'.pc + 1 } := by
         simp [ht', gd, hgx, hgr]
       have cc : Common { base with tries := gd :: rest } τ' (l ++ Ev.finE i :: lfl) I rf :=
-        hcF.trans (r2.mono (fun _ h => h) (fun _ => rfl))
+        hcF.trans r2
       refine ⟨VM.step τ' .leaveFinally, hrF.trans (r1.trans (Reach.one r2.halted (by rw [r3]; exact hL))), ?_, ?_, ?_⟩
       · rw [hstep2]; exact ⟨cc.log, rfl, cc.iters, cc.halted, cc.cnt, cc.res⟩
       · rw [hstep2]; simp [r3]
@@ -464,7 +470,7 @@ theorem finallyStage {C : Code} {ctx : List BI} {src base : VM} {g : TryFrame} {
     obtain ⟨ex', rfl, hf'⟩ := findBrk_try hf
     have hi : C[τ.pc]? = some Instr.leaveTry := codeAt_head hcd
     have ht : τ.tries = g :: rest := by rw [h2.tries, hb]
-    let gd : TryFrame := { g with finallyRet := some (τ.pc + 1), finallyPos := none, catchPos := none }
+    let gd : TryFrame := { g with finallyRet := some (τ.pc + 1), finallyPos := none, catchPos := none, result := τ.result }
     have hstep : VM.step τ .leaveTry = { τ with tries := gd :: rest, pc := pcF + 1 } := by
       simp [ht, hg1, gd, VM.setSp, h3, hgsp]
     have hrF : Reach C src (VM.step τ .leaveTry) := h1.trans (Reach.one h2.halted hi)
@@ -478,12 +484,12 @@ theorem finallyStage {C : Code} {ctx : List BI} {src base : VM} {g : TryFrame} {
       have hcnt : (VM.step τ .leaveTry).cnt cur = some env := by rw [hcF.cnt cur hcurI]; exact hbc
       obtain ⟨τ', r1, r2, r3, r4⟩ := runFin _ hpF hcF.halted hcF.iters hcnt
       have ht' : τ'.tries = gd :: rest := by rw [r2.tries, hstep]
-      have hstep2 : VM.step τ' .leaveFinally = { τ' with tries := rest, pc := τ.pc + 1 } := by
+      have hstep2 : VM.step τ' .leaveFinally = { τ' with tries := rest, pc := τ.pc + 1, result := τ.result } := by
         simp [ht', gd, hgx]
       have cc : Common { base with tries := gd :: rest } τ' (l ++ Ev.finE i :: lfl) I rf :=
-        hcF.trans (r2.mono (fun _ h => h) (fun _ => rfl))
+        hcF.trans r2
       refine ⟨VM.step τ' .leaveFinally, hrF.trans (r1.trans (Reach.one r2.halted (by rw [r3]; exact hL))), ?_, ?_, ?_⟩
-      · rw [hstep2]; exact ⟨cc.log, rfl, cc.iters, cc.halted, cc.cnt, cc.res⟩
+      · rw [hstep2]; exact ⟨cc.log, rfl, cc.iters, cc.halted, cc.cnt, fun hr => h2.res hr⟩
       · rw [hstep2]; show τ'.stack = base.stack; rw [r4, hsF]
       · exact exitPt_peel hf' hcd _ (by rw [hstep2])
     · simp only [hkf, if_false]
@@ -493,7 +499,7 @@ theorem finallyStage {C : Code} {ctx : List BI} {src base : VM} {g : TryFrame} {
     obtain ⟨ex', rfl, hf'⟩ := findBrk_try hf
     have hi : C[τ.pc]? = some Instr.leaveTry := codeAt_head hcd
     have ht : τ.tries = g :: rest := by rw [h2.tries, hb]
-    let gd : TryFrame := { g with finallyRet := some (τ.pc + 1), finallyPos := none, catchPos := none }
+    let gd : TryFrame := { g with finallyRet := some (τ.pc + 1), finallyPos := none, catchPos := none, result := τ.result }
     have hstep : VM.step τ .leaveTry = { τ with tries := gd :: rest, pc := pcF + 1 } := by
       simp [ht, hg1, gd, VM.setSp, h3, hgsp]
     have hrF : Reach C src (VM.step τ .leaveTry) := h1.trans (Reach.one h2.halted hi)
@@ -507,12 +513,12 @@ theorem finallyStage {C : Code} {ctx : List BI} {src base : VM} {g : TryFrame} {
       have hcnt : (VM.step τ .leaveTry).cnt cur = some env := by rw [hcF.cnt cur hcurI]; exact hbc
       obtain ⟨τ', r1, r2, r3, r4⟩ := runFin _ hpF hcF.halted hcF.iters hcnt
       have ht' : τ'.tries = gd :: rest := by rw [r2.tries, hstep]
-      have hstep2 : VM.step τ' .leaveFinally = { τ' with tries := rest, pc := τ.pc + 1 } := by
+      have hstep2 : VM.step τ' .leaveFinally = { τ' with tries := rest, pc := τ.pc + 1, result := τ.result } := by
         simp [ht', gd, hgx]
       have cc : Common { base with tries := gd :: rest } τ' (l ++ Ev.finE i :: lfl) I rf :=
-        hcF.trans (r2.mono (fun _ h => h) (fun _ => rfl))
+        hcF.trans r2
       refine ⟨VM.step τ' .leaveFinally, hrF.trans (r1.trans (Reach.one r2.halted (by rw [r3]; exact hL))), ?_, ?_, ?_⟩
-      · rw [hstep2]; exact ⟨cc.log, rfl, cc.iters, cc.halted, cc.cnt, cc.res⟩
+      · rw [hstep2]; exact ⟨cc.log, rfl, cc.iters, cc.halted, cc.cnt, fun hr => h2.res hr⟩
       · rw [hstep2]; show τ'.stack = base.stack; rw [r4, hsF]
       · exact exitPt_peel hf' hcd _ (by rw [hstep2])
     · simp only [hkf, if_false]
@@ -527,7 +533,7 @@ theorem finallyStage {C : Code} {ctx : List BI} {src base : VM} {g : TryFrame} {
     have i3 : C[τ.pc + 1 + 1]? = some Instr.loadResult := codeAt_head (codeAt_tail (codeAt_tail h4))
     have h5 : CodeAt C (τ.pc + 1 + 1 + 1) (retExitsS ctx ++ [Instr.ret]) := codeAt_tail (codeAt_tail (codeAt_tail h4))
     have ht : τ.tries = g :: rest := by rw [h2.tries, hb]
-    let gd : TryFrame := { g with finallyRet := some (τ.pc + 1 + 1), finallyPos := none, catchPos := none }
+    let gd : TryFrame := { g with finallyRet := some (τ.pc + 1 + 1), finallyPos := none, catchPos := none, result := v }
     have ea : VM.step τ .saveResult = { τ with stack := xs ++ base.stack, result := v, pc := τ.pc + 1 } := by
       simp [h3]
     have eb : VM.step (VM.step τ .saveResult) .leaveTry
@@ -548,15 +554,14 @@ theorem finallyStage {C : Code} {ctx : List BI} {src base : VM} {g : TryFrame} {
         rw [hcF.cnt cur hcurI]; exact hbc
       obtain ⟨τ', r1, r2, r3, r4⟩ := runFin _ hpF hcF.halted hcF.iters hcnt
       have ht' : τ'.tries = gd :: rest := by rw [r2.tries, eb]
-      have hres : τ'.result = v := by rw [r2.res rfl, eb]
-      have hstep2 : VM.step τ' .leaveFinally = { τ' with tries := rest, pc := τ.pc + 1 + 1 } := by
+      have hstep2 : VM.step τ' .leaveFinally = { τ' with tries := rest, pc := τ.pc + 1 + 1, result := v } := by
         simp [ht', gd, hgx]
       have hst' : τ'.stack = base.stack := by rw [r4, hsF]
       have hstep3 : VM.step (VM.step τ' .leaveFinally) .loadResult
-          = { τ' with tries := rest, pc := τ.pc + 1 + 1 + 1, stack := v :: base.stack } := by
-        rw [hstep2]; simp [hres, hst']
+          = { τ' with tries := rest, pc := τ.pc + 1 + 1 + 1, stack := v :: base.stack, result := v } := by
+        rw [hstep2]; simp [hst']
       have cc : Common { base with tries := gd :: rest } τ' (l ++ Ev.finE i :: lfl) I false :=
-        hcF.trans (r2.mono (fun _ h => h) (fun h => by simp at h))
+        hcF.trans r2
       refine ⟨VM.step (VM.step τ' .leaveFinally) .loadResult, ?_, ?_, ⟨[], by rw [hstep3]; simp⟩, by rw [hstep3]; exact h5⟩
       · refine hrF.trans (r1.trans (Reach.step r2.halted (by rw [r3]; exact hL) (Reach.one ?_ ?_)))
         · rw [hstep2]; exact r2.halted
@@ -587,14 +592,14 @@ theorem finallyStage {C : Code} {ctx : List BI} {src base : VM} {g : TryFrame} {
       have hstep2 : VM.step τ' .leaveFinally = VM.throwV (some v) { τ' with tries := rest } := by
         simp [ht', gd]
       have cc : Common { base with tries := gd :: rest } τ' (l ++ Ev.finE i :: lfl) I rf :=
-        hcF.trans (r2.mono (fun _ h => h) (fun _ => rfl))
+        hcF.trans r2
       refine ⟨{ τ' with tries := rest }, ⟨cc.log, rfl, cc.iters, cc.halted, cc.cnt, cc.res⟩, ⟨[], ?_⟩, ?_⟩
       · show τ'.stack = [] ++ base.stack; rw [r4, hsF]; rfl
       · rw [← hstep2]
         exact hrF.trans (r1.trans (Reach.one r2.halted (by rw [r3]; exact hL)))
     · simp only [hkf, if_false]
       exact abruptTail hkf _ gd rfl hgd2 hrF hcF hsF hpF
-  | fatal => exact h.elim
+  | fatal => exact absurd rfl hnf
 
 /-- `adj` on kinds -/
 def adjK (lab : Option Label) : K → K
@@ -783,7 +788,9 @@ theorem loopSim {C : Code} {ctx : List BI} {lab : Option Label} {e contPc bodyPc
           rw [kind_exitBreakable, kind_updateEmpty]; rfl
         rw [hk0]
         exact ⟨τ1, h2.mono hsub (fun h => h), h3, h4⟩
-      | fatal => exact hb.elim
+      | fatal =>
+        simp only [loopContinues, Bool.false_eq_true, if_false]
+        exact hb
 
 /-! ### a statement without `return` never completes with a return -/
 
@@ -878,7 +885,7 @@ theorem retFree_no_ret (s : Stmt) : stage1 s = true → retFree s = true → ∀
           simp only at hfat; subst hfat; rfl
         rw [this]; simp [kind]
       · rw [(kind_finPart i _ _ hfat).1]
-        have hf := ihf hsf.1.1 hr.2 env []
+        have hf := ihf hsf.1 hr.2 env []
         by_cases hn : kind (exec env [] f).1 = K.normal
         · simp only [hn, if_true]; exact hcp v
         · simp only [hn, if_false]; exact hf v
@@ -1008,7 +1015,7 @@ theorem catchStage {C : Code} {ctx : List BI} {σ1 : VM} {p0 lb lc env cur i : N
 
 /-- assembly of a try statement from the simulations of its parts -/
 theorem trySim {C : Code} {ctx : List BI} {σ : VM} {pc lb lc lf env cur i : Nat} {hasC hasF : Bool}
-    {I If : List Nat} {rf : Bool} {rb : Res} {rc rff : Unit → Res}
+    {I If : List Nat} {rf rfF : Bool} {rb : Res} {rc rff : Unit → Res} (hrfF : rf = true → rfF = true)
     (hpc : σ.pc = pc) (hh : σ.halted = none) (hit : σ.iters = []) (hcnt : σ.cnt cur = some env) (hcurI : cur ∉ I)
     (hsubF : ∀ x, x ∈ If → x ∈ I) (hcf : (hasC || hasF) = true)
     (hT : C[pc]? = some (Instr.try_ (if hasC then (1 + (if hasF then 1 else 0)) + lb + 1 else 0)
@@ -1028,7 +1035,7 @@ theorem trySim {C : Code} {ctx : List BI} {σ : VM} {pc lb lc lf env cur i : Nat
       C[pc + 2 + lb + (if hasC then lc + 4 else 0) + 1]? = some (Instr.emit (Ev.finE i)) ∧
       C[pc + 2 + lb + (if hasC then lc + 4 else 0) + 2 + lf]? = some Instr.leaveFinally ∧
       ∀ τ : VM, τ.pc = pc + 2 + lb + (if hasC then lc + 4 else 0) + 2 → τ.halted = none → τ.iters = [] → τ.cnt cur = some env →
-        SimK C (BI.try_ :: ctx) τ (pc + 2 + lb + (if hasC then lc + 4 else 0) + 2 + lf) If true (rff ()).2 (kind (rff ()).1))
+        SimK C (BI.try_ :: ctx) τ (pc + 2 + lb + (if hasC then lc + 4 else 0) + 2 + lf) If rfF (rff ()).2 (kind (rff ()).1))
     (hNoFin : hasF = false → C[pc + 1 + lb + (if hasC then lc + 4 else 0)]? = some Instr.leaveTry)
     (hNR : rf = true → NR rb ∧ (hasC = true → NR (rc ()))) :
     SimK C ctx σ (pc + (1 + (if hasF then 1 else 0)) + lb + (if hasC then lc + 4 else 0) + (if hasF then 2 + lf + 1 else 1))
@@ -1068,7 +1075,7 @@ theorem trySim {C : Code} {ctx : List BI} {σ : VM} {pc lb lc lf env cur i : Nat
     have S := finallyStage (C := C) (ctx := ctx) (src := σ1) (base := { σ1 with tries := g :: σ.tries }) (g := g) (rest := σ.tries)
       (pcF := pc + 2 + lb + (if hasC then lc + 4 else 0)) (lf := lf) (env := env) (cur := cur) (i := i) (I := I) (If := If) (rf := rf)
       (by rw [hgf]) (by rw [hgx]) (by rw [hgr]) (by rw [hgsp, e1]) hgthr hretA rfl (by rw [e1]; exact hit)
-      (by rw [e1]; exact hcnt) hcurI hsubF hE hM hL hF hA
+      (by rw [e1]; exact hcnt) hcurI hsubF hE hM hL hrfF hF hA
     have hc1 : Common σ { σ1 with tries := σ.tries } [Ev.tryE i] I rf := by
       rw [e1]; exact ⟨rfl, rfl, hit, hh, fun _ _ => rfl, fun _ => rfl⟩
     have R := SimG.prependG (src := σ) (base := σ) hr1 hc1 (by rw [e1]) S
@@ -1259,7 +1266,8 @@ theorem sim (s : Stmt) : ∀ (cur : Nat) (lab : Option Label) (ls : List Label) 
       have T := trySim (C := C) (ctx := ctx) (σ := σ) (pc := pc) (lb := lb) (lc := lc) (lf := lf) (env := env) (cur := cur) (i := i)
         (hasC := false) (hasF := true) (I := ids (Stmt.tryS i b false c true f)) (If := ids f)
         (rf := retFree (Stmt.tryS i b false c true f)) (rb := exec env [] b) (rc := fun _ => exec env [] c)
-        (rff := fun _ => exec env [] f) hpc hh hit hcnt hcurI hIf rfl (by simpa using hT) (fun _ => hTE)
+        (rff := fun _ => exec env [] f) (rfF := retFree f) (fun h => by simp [retFree] at h; exact h.2)
+        hpc hh hit hcnt hcurI hIf rfl (by simpa using hT) (fun _ => hTE)
         (fun τ hp hhh hii hcc' => by
           have hnb : Instr.nop ∉ gen b cur none (BI.try_ :: ctx) (pc + 2) := by
             intro h; simp [h] at hnop
@@ -1273,12 +1281,10 @@ theorem sim (s : Stmt) : ∀ (cur : Nat) (lab : Option Label) (ls : List Label) 
         (fun _ => ⟨by simpa using hE, by simpa using hM, by simpa using hL, fun τ hp hhh hii hcc' => by
           have hnf : Instr.nop ∉ gen f cur none (BI.try_ :: ctx) (pc + 2 + lb + 2) := by
             intro h; simp [h] at hnop
-          have A := ihf cur none [] (BI.try_ :: ctx) (pc + 2 + lb + 2) C τ env hsf.1.1 rfl (fun _ => rfl) hcfi hnf hCf
+          have A := ihf cur none [] (BI.try_ :: ctx) (pc + 2 + lb + 2) C τ env hsf.1 rfl (fun _ => rfl) hcfi hnf hCf
             (by simpa using hp) hhh hii hcc'
           rw [adj_none] at A
           simp only [List.map_cons, BI.shape, hlf] at A
-          have hrf : retFree f = true := hsf.1.2
-          rw [hrf] at A
           unfold Sim at A
           simpa using A⟩)
         (fun h => by simp at h)
@@ -1306,7 +1312,8 @@ theorem sim (s : Stmt) : ∀ (cur : Nat) (lab : Option Label) (ls : List Label) 
       have T := trySim (C := C) (ctx := ctx) (σ := σ) (pc := pc) (lb := lb) (lc := lc) (lf := lf) (env := env) (cur := cur) (i := i)
         (hasC := true) (hasF := false) (I := ids (Stmt.tryS i b true c false f)) (If := ids f)
         (rf := retFree (Stmt.tryS i b true c false f)) (rb := exec env [] b) (rc := fun _ => exec env [] c)
-        (rff := fun _ => exec env [] f) hpc hh hit hcnt hcurI hIf rfl (by simpa using hT) (fun h => by simp at h)
+        (rff := fun _ => exec env [] f) (rfF := retFree f) (fun h => by simp [retFree] at h; exact h.2)
+        hpc hh hit hcnt hcurI hIf rfl (by simpa using hT) (fun h => by simp at h)
         (fun τ hp hhh hii hcc' => by
           have hnb : Instr.nop ∉ gen b cur none (BI.try_ :: ctx) (pc + 1) := by
             intro h; simp [h] at hnop
@@ -1354,7 +1361,8 @@ theorem sim (s : Stmt) : ∀ (cur : Nat) (lab : Option Label) (ls : List Label) 
       have T := trySim (C := C) (ctx := ctx) (σ := σ) (pc := pc) (lb := lb) (lc := lc) (lf := lf) (env := env) (cur := cur) (i := i)
         (hasC := true) (hasF := true) (I := ids (Stmt.tryS i b true c true f)) (If := ids f)
         (rf := retFree (Stmt.tryS i b true c true f)) (rb := exec env [] b) (rc := fun _ => exec env [] c)
-        (rff := fun _ => exec env [] f) hpc hh hit hcnt hcurI hIf rfl
+        (rff := fun _ => exec env [] f) (rfF := retFree f) (fun h => by simp [retFree] at h; exact h.2)
+        hpc hh hit hcnt hcurI hIf rfl
         (by have : 1 + 1 + lb + (3 + lc + 1) + 1 = 2 + lb + 3 + lc + 1 + 1 := by omega
             simp only [if_true]; rw [this]; simpa using hT)
         (fun _ => hTE)
@@ -1383,12 +1391,10 @@ theorem sim (s : Stmt) : ∀ (cur : Nat) (lab : Option Label) (ls : List Label) 
           refine ⟨hE, hM, hL, fun τ hp hhh hii hcc' => ?_⟩
           have hnf : Instr.nop ∉ gen f cur none (BI.try_ :: ctx) (pc + 2 + lb + 3 + lc + 1 + 2) := by
             intro h; simp [h] at hnop
-          have A := ihf cur none [] (BI.try_ :: ctx) (pc + 2 + lb + 3 + lc + 1 + 2) C τ env hsf.1.1 rfl (fun _ => rfl) hcfi hnf hCf
+          have A := ihf cur none [] (BI.try_ :: ctx) (pc + 2 + lb + 3 + lc + 1 + 2) C τ env hsf.1 rfl (fun _ => rfl) hcfi hnf hCf
             hp hhh hii hcc'
           rw [adj_none] at A
           simp only [List.map_cons, BI.shape, hlf] at A
-          have hrf : retFree f = true := hsf.1.2
-          rw [hrf] at A
           unfold Sim at A
           exact A)
         (fun h => by simp at h)
